@@ -11,7 +11,7 @@ use futures::io::{AsyncReadExt, AsyncWriteExt};
 #[cfg(feature = "tokio")]
 use tokio::io::{AsyncReadExt, AsyncWriteExt};
 
-const OP_TIMEOUT: Duration = Duration::from_secs(8);
+const OP_TIMEOUT: Duration = Duration::from_secs(30);
 
 #[cfg(feature = "tokio")]
 fn rt() -> &'static tokio::runtime::Runtime {
